@@ -1106,3 +1106,92 @@ def r50_only_update_reseats_handles(facts):
                       "without an update (a clone taken before still shows the old array, so the handle and its clones disagree)" % site)
     c.floor("stores through a `&mut Array`", n_sites, 1)
     return c
+
+
+# ------------------------------------------------------------------ R52
+
+def r52_model_update_delegates(facts):
+    """MODEL-UPDATE: Model::update hands the parameters of EVERY layer to its optimizer's update, unconditionally (a model that never calls the optimizer, or leaves a layer out, does not train those parameters)"""
+    c = Ctx("R52", facts, "Model::update passes all layers' parameters to Optimizer::update on every path")
+    ups = [b for b in facts.fns() if b.get("name") == "update" and (b.get("impl_self") or "").startswith("corgi::model::Model") and b.get("impl_trait_def") is None]
+    c.floor("Model::update", len(ups), 1)
+    for u in ups:
+        where0 = "%s:%d" % (rel(u["file"]), u["sp"][0])
+        calls = []
+        for n, ctx in F.walk_ctx(facts.root(u)):
+            if n.get("k") == "Call" and (callee(n) == "corgi::optimizer::Optimizer::update" or (resolved(n) or "").endswith("as corgi::optimizer::Optimizer>::update")):
+                cond = any(len(fr) >= 3 and (fr[0] in ("if", "guard", "logic") or (fr[0] == "arm" and not str(fr[1].get("source", "")).startswith("ForLoopDesugar"))) for fr in ctx)
+                calls.append((n, cond))
+        inst = "model-update:%s" % u["def"]
+        if not calls:
+            c.bad(inst, where0, "Model::update never calls the optimizer's update: no parameter of the model is ever stepped")
+            continue
+        if all(cond for _, cond in calls):
+            c.unk(inst, loc(u, calls[0][0]), "the optimizer's update is called under a condition")
+            continue
+        n = [x for x, cond in calls if not cond][0]
+        # its argument: the result of a crate-local function on self that collects parameters from the layers
+        env = {}
+        for x in walk(facts.root(u)):
+            if x.get("k") == "Block":
+                for st in x["stmts"]:
+                    if st["s"] == "let" and st["pat"].get("k") == "Binding" and st.get("init") is not None:
+                        env[st["pat"]["v"]] = st["init"]
+        a = strip(n["args"][1]) if len(n["args"]) > 1 else None
+        hops = 0
+        while isinstance(a, dict) and a.get("k") == "VarRef" and a["v"] in env and hops < 4:
+            a = strip(env[a["v"]])
+            hops += 1
+        pb = facts.body(resolved(a)) if isinstance(a, dict) and a.get("k") == "Call" and (a.get("callee") or {}).get("resolved_local") else None
+        if pb is None:
+            c.unk(inst, loc(u, n), "what is handed to the optimizer (`%s`) is not the result of a crate-local parameter collector" % (show(a)[:50] if isinstance(a, dict) else "?"))
+            continue
+        # the collector walks self.layers completely
+        selective = None
+        mentions_layers = False
+        for x in walk(facts.root(pb)):
+            if x.get("k") == "Field" and x.get("name") == "layers":
+                mentions_layers = True
+            if x.get("k") == "Call" and (callee(x) or "").rsplit("::", 1)[-1] in ("skip", "take", "filter", "step_by", "skip_while", "take_while", "filter_map", "nth", "last", "first"):
+                selective = selective or x
+        calls_layer_params = any(x.get("k") == "Call" and (callee(x) == "corgi::layer::Layer::parameters" or (resolved(x) or "").endswith("::parameters")) for nb in facts.nested(pb) for x in walk(facts.root(nb)))
+        if not mentions_layers or not calls_layer_params:
+            c.unk(inst, loc(pb, facts.root(pb)), "the parameter collector does not visibly walk self.layers calling Layer::parameters")
+        elif selective is not None:
+            c.bad(inst, loc(pb, selective), "the parameter collector leaves layers or parameters out (`%s`): those parameters are never handed to the optimizer" % show(selective)[:60])
+        else:
+            c.ok(inst, loc(u, n), "Optimizer::update receives the parameters of every layer, unconditionally")
+    # every layer hands out all of its array-typed fields
+    from .repr_rules import vec_literal_elems
+    lps = [b for b in facts.fns() if b.get("impl_trait_def") == "corgi::layer::Layer" and b.get("name") == "parameters" and b.get("thir")]
+    c.floor("Layer::parameters implementations", len(lps), 2)
+    for b in lps:
+        adt = b.get("impl_self") or ""
+        adt_key = adt.split("<")[0]
+        try:
+            flds = facts.adt_fields(adt_key) or []
+        except Exception:
+            flds = []
+        arr_fields = sorted(f_["name"] for f_ in flds if f_.get("ty") == ARRAY)
+        inst = "layer-parameters:%s" % adt_key
+        where = "%s:%d" % (rel(b["file"]), b["sp"][0])
+        root = strip(facts.root(b))
+        while isinstance(root, dict) and root.get("k") == "Block" and not root["stmts"] and root.get("e") is not None:
+            root = strip(root["e"])
+        els = vec_literal_elems(root) if isinstance(root, dict) else None
+        if els is None or not arr_fields:
+            c.unk(inst, where, "parameters() is not a vector literal of the layer's array fields (or the layer's fields are not visible)")
+            continue
+        got = []
+        for e_ in els:
+            r_, ch = field_chain(e_)
+            if var_of(r_) == self_var(facts, b) and len(ch) == 1:
+                got.append(ch[0])
+        missing = [f_ for f_ in arr_fields if f_ not in got]
+        if missing:
+            c.bad(inst, where, "%s::parameters() does not hand out the array field(s) %s: they are never updated by the optimizer" % (adt_key.rsplit("::", 1)[-1], missing))
+        elif len(got) != len(set(got)):
+            c.bad(inst, where, "%s::parameters() hands out a field twice (%s)" % (adt_key.rsplit("::", 1)[-1], got))
+        else:
+            c.ok(inst, where, "parameters() hands out every array field of the layer once (%s)" % ", ".join(got))
+    return c
